@@ -18,4 +18,30 @@ CLAIMS['C03'] = {
           'class on ~60k lookups (exhaustive query sets for short barcodes, all file formats, shipped whitelists) and on the tables themselves.',
   'note': 'Modelled not verified: file tokenisation / column-order detection of parse_barcode_file (K only), itertools enumeration order of '
           'hamming_circle (K pins it as a multiset), dict and sorted as association lists / insertion sort. Assumes the ACGTN alphabet and one file per alias.'}
+CLAIMS['C09'] = {
+  'technique': 'Coq proof (site arithmetic regenerated from source into GenSite.v + in-Coq ground-truth simulator + mirror theorems, lia) + correspondence on simulated pysam reads',
+  'text': 'For every read the simulator can place (motif/overhang at reference position p, either strand, any number of soft-clipped leading/trailing cycles, '
+          'any clip-free CIGAR, optionally a lost first cycle under --allow_cycle_shift) NlaIIIFragment assigns DS = coordinate of the recognised CATG and '
+          'CHICFragment DS = the base adjacent to the overhang (trimmed and untrimmed layouts); every mapped read without CATG at its start is rejected '
+          '(no DS, not valid, qcfail); mirroring any mapped read onto the reverse-complemented reference mirrors its site and flips its strand (NLA and CHIC).',
+  'note': 'Regenerated on every run: the tail of both identify_site functions (clip correction, guard chain, offsets, RZ, rejection) by a fail-closed statement '
+          'extractor in tools/c09.py (trusted). Modelled not verified (compared in K): pysam reference_end/cigartuples/seq, tag storage, Fragment.__init__ '
+          'bookkeeping, set_site/is_valid. Not modelled: no_overhang mode, max_fragment_size, CHIC homopolymer filter. Assumes the soft clip is the outermost '
+          'CIGAR operation; ground truth is the simulator definition (first cycle pairs with the first motif/overhang base).'}
+CLAIMS['C14'] = {
+  'technique': 'Coq proof over an executable model + context tables regenerated from the live TAPS object (finite-domain vm_compute proof with the bound stated) + correspondence check',
+  'text': 'Context tables equal CG*->z, C[ACT]G->x, C[ACT][ACT]->h for every key (125 contexts x 2, exhaustive, lifted to all keys); for all references, molecules, both '
+          'reference kinds and both strand conventions: every call is a strict-majority consensus position inside the mate-overlap-safe span on a reference C/G, its letter '
+          'is the true strand context (none when truncated / non-ACGT), upper case iff the consensus shows C>T / G>A; XM has one character per aligned base; '
+          'MC/uC/sZ/sz/sX/sx/sH/sh equal the entry counts (induction over the call list).',
+  'note': 'Modelled not verified: pysam (get_aligned_pairs/MD, FastaFile.fetch), CachedFasta slicing, numpy argmax/tie test, dict/Counter semantics; molecule abstraction '
+          'computed by impl_c14.py with pysam; table tie = reflection + AST check (fail closed on refactors of TAPS.__init__). search() evaluates a Python transcription of the statement.'}
+CLAIMS['C17'] = {
+  'technique': 'Coq proof (induction over the blacklist / fuelled loops, lia) about an executable Gallina transcription + exhaustive small-scope correspondence check',
+  'text': 'For every region, bin size > 0, blacklist of intervals (overlapping, adjacent, empty, unsorted, covering or outside the region) and fragment size >= 0 the model '
+          'of blacklisted_binning returns non-empty, increasing, disjoint bins inside the region, each <= bin_size, that together with the blacklisted bases cover the region '
+          'exactly once; each fetch window contains its bin, extends it by at most fragment_size and never leaves the region or contains a blacklisted base. fill_range, '
+          'merge_overlapping_ranges (termination, disjoint, same bases), trim_rangelist proved separately; concat (bp_chunked l k) = l. 272k cases quick (exhaustive small scopes), 7M thorough.',
+  'note': 'Hand transcription tied to the code by correspondence only (no translator). int(a/b) modelled as Z.quot (exact below 2^53); sorted() as insertion sort. '
+          'blacklisted_binning_contigs and BED/BED.gz reading are exercised through real files but not modelled in Coq.'}
 NOT_APPLICABLE = {}
